@@ -33,5 +33,7 @@ def run(P, R, L):
     K.grd3_sequence_filter(P, R, L)
     K.lck_capture(P, R, L, "LCK-2", [K.GET], {K.GET: ["sequence", "memtable", "imm", "version"]})
     R.clause("LCK-2", "DB::get captures all four sources under the mutex")
+    R.clause("SRC-2", "Version::get consults level-0 files newest first and every deeper level in ascending order")
+    K.src2_lookup_candidates(P, R, L)
     R.not_decided += ["that orderings / binary searches compute the right index for every key set", "sequence-number arithmetic across reopen",
                       "option changes between reopens"]
